@@ -364,5 +364,30 @@ pub fn run(ctx: &Ctx) -> Report {
       }
     }
   }
+  // ---- sizes where they are shown: the Content Size and Piece Size rows of `--terminal torrent show`
+  if ctx.replay.is_none() || super::replay_cases(ctx).map(|rc| rc.iter().any(|v| v.get("shown_size").is_some())).unwrap_or(false) {
+    for n in [1u64, 2, 1023, 1024, 1025, 1536, 2047, 104853, 1 << 20] {
+      let sb = Sandbox::new(&ctx.work, "c16s");
+      sb.write("content", &vec![b'x'; n as usize]);
+      let p = n.to_string();
+      let c = Cmd::new(&ctx.imdl, &["torrent", "create", "--input", "content", "--output", "o.torrent", "--piece-length", &p, "--allow", "small-piece-length", "--allow", "uneven-piece-length"]).cwd(&sb.root).run();
+      let out = Cmd::new(&ctx.imdl, &["--terminal", "torrent", "show", "--input", "o.torrent"]).cwd(&sb.root).run();
+      let text = out.stdout_s();
+      let case = json!({"shown_size": n});
+      report.case(Some(fnv_str(&case.to_string())));
+      report.hit("cli:show-terminal-sizes");
+      for row in ["Content Size", "Piece Size"] {
+        let shown = text.lines().find_map(|l| l.trim_start().strip_prefix(row)).map(|r| r.trim().to_string());
+        match shown {
+          Some(got) => {
+            if let Some(d) = display_spec(n, &got) {
+              report.fail("property", "bytes-display", case.clone(), format!("`{row}` of {n} bytes shown as `{got}`: {d}"));
+            }
+          }
+          None => report.fail("property", "bytes-display", case.clone(), format!("no `{row}` row (create exit {:?}, show exit {:?})", c.code, out.code)),
+        }
+      }
+    }
+  }
   report
 }
